@@ -138,6 +138,24 @@ NoCleanOverFailed ==
         IsDirty(w, [fs |-> fs, rid |-> runid + 1, q |-> FALSE], t).v # "clean"
 
 (***************************************************************************)
+(* C06                                                                     *)
+(***************************************************************************)
+LiveScripts(t) == {s \in DOMAIN procs : procs[s].kind = "script" /\ procs[s].t = t /\ procs[s].pc # "done"}
+
+\* two executions of the build script of one target never overlap
+ScriptMutex == \A t \in Plain : Cardinality(LiveScripts(t)) <= 1
+
+\* from before its script starts until its result is committed the starter holds the lock
+\* of the target (or runs with REDO_UNLOCKED for a holder above it)
+HoldThroughRecord ==
+    \A p \in DOMAIN procs : \A j \in procs[p].jobs :
+        (j.k = "self" /\ procs[p].pc # "done") =>
+            (locks[j.t] = p \/ (procs[p].unl /\ locks[j.t] # NoPid))
+
+\* while a script runs, its target is locked
+ScriptUnderLock == \A t \in Plain : LiveScripts(t) # {} => locks[t] # NoPid
+
+(***************************************************************************)
 (* C12 / C09 (at this level): termination and defined exit status          *)
 (***************************************************************************)
 \* C10: after a kill, on a program whose rules all succeed, every build command exits 0
